@@ -11,12 +11,13 @@ from concurrent.futures import ThreadPoolExecutor
 # least 2.5x the worst ratio measured on the unchanged tree over all families
 # (see DESIGN.md, C13) and far below what super-linear behaviour reaches at
 # the larger needle sizes of the grid.
-K_PER_BYTE = 256
+K_PER_BYTE = 100     # instructions per byte of haystack + needle
+K_PER_MATCH = 320   # instructions per match an iterator yields (call overhead)
 K0 = 50000
 
 
-def budget(n, m):
-    return K_PER_BYTE * (n + m) + K0
+def budget(n, m, matches=0):
+    return K_PER_BYTE * (n + m) + K_PER_MATCH * matches + K0
 
 
 def measure(wk, inst, tmpdir, idx):
@@ -36,10 +37,10 @@ def measure(wk, inst, tmpdir, idx):
             os.remove(out)
         except OSError:
             pass
-    m = re.search(r"RESULT \S+ \S+ n=(\d+) m=(\d+) value=(\d+)", p.stdout)
+    m = re.search(r"RESULT \S+ \S+ n=(\d+) m=(\d+) value=(\d+) matches=(\d+)", p.stdout)
     if ir is None or not m:
         return inst, None, None, "could not parse callgrind/wk output", 0
-    return inst, ir, (int(m.group(1)), int(m.group(2)), int(m.group(3))), None, 0
+    return inst, ir, (int(m.group(1)), int(m.group(2)), int(m.group(4))), None, 0
 
 
 def handler(job, tier, seed, workdir, drv):
@@ -57,6 +58,7 @@ def handler(job, tier, seed, workdir, drv):
     hist, violations, samples, machinery_errors = {}, [], [], []
     worst = {}
     evaluated = 0
+    worst_per_match = 0.0
     for inst, ir, nm, err, rc in results:
         op, fam = inst[0], inst[1]
         if err:
@@ -67,19 +69,22 @@ def handler(job, tier, seed, workdir, drv):
             else:
                 machinery_errors.append("%s: %s" % (" ".join(inst), err))
             continue
-        n, m, _ = nm
+        n, m, matches = nm
         evaluated += 1
-        ratio = ir / float(n + m)
+        per_match = ir / float(matches) if matches > 50 else 0.0
+        worst_per_match = max(worst_per_match, per_match if ir > K_PER_BYTE * (n + m) / 4 and matches * 8 >= n else 0.0)
+        # per-byte work after the declared per-match allowance
+        ratio = max(0, ir - K_PER_MATCH * matches) / float(n + m)
         key = "%s/%s" % (fam, op)
         if ratio > worst.get(key, (0, None))[0]:
             worst[key] = (ratio, {"instance": " ".join(inst), "n": n, "m": m, "Ir": ir, "Ir_per_byte": round(ratio, 2)})
-        if ir > budget(n, m):
+        if ir > budget(n, m, matches):
             violations.append({
                 "class": "superlinear",
-                "what": "[superlinear] %s on family %s with n=%d m=%d executed %d instructions = %.1f per byte of haystack+needle; declared budget %d*(n+m)+%d = %d" % (
-                    op, fam, n, m, ir, ratio, K_PER_BYTE, K0, budget(n, m)),
+                "what": "[superlinear] %s on family %s with n=%d m=%d (%d matches) executed %d instructions = %.1f per byte of haystack+needle beyond the per-match allowance; declared budget %d*(n+m)+%d*matches+%d = %d" % (
+                    op, fam, n, m, matches, ir, ratio, K_PER_BYTE, K_PER_MATCH, K0, budget(n, m, matches)),
                 "replay_argv": None,
-                "detail": {"class": "superlinear", "instance": inst, "Ir": ir, "n": n, "m": m, "budget": budget(n, m)},
+                "detail": {"class": "superlinear", "instance": inst, "Ir": ir, "n": n, "m": m, "matches": matches, "budget": budget(n, m, matches)},
             })
             hist["violation/superlinear"] = hist.get("violation/superlinear", 0) + 1
     fam_worst = {}
@@ -97,7 +102,8 @@ def handler(job, tier, seed, workdir, drv):
         "histogram": hist, "samples": samples, "violation_count": len(violations), "violations": violations[:12],
         "machinery_errors": machinery_errors[:5], "caps_hit": [],
         "extra": {"exhaustive": True, "nontrivial_rule": "an instance is non-trivial when its needle has at least 32 bytes (beyond the vector searcher's cap, where per-candidate confirmation cost could grow with the needle)",
-                  "bounds": {"instances": len(insts), "declared_budget": "Ir <= %d*(n+m) + %d" % (K_PER_BYTE, K0),
+                  "bounds": {"instances": len(insts), "declared_budget": "Ir <= %d*(n+m) + %d*matches + %d" % (K_PER_BYTE, K_PER_MATCH, K0),
+                             "worst_Ir_per_match_on_dense_families": round(worst_per_match, 1),
                              "overall_worst_Ir_per_byte": round(max([r for r, _ in fam_worst.values()] or [0]), 2)}},
         "_wall_s": time.time() - t0,
     }
